@@ -21,15 +21,15 @@ BYTES(n) == [k |-> "bytes", v |-> 0, n |-> n]
 STR(n) == [k |-> "str", v |-> 0, n |-> n]
 (* n octets of multi-byte UTF-8 text (n even: two-octet characters) *)
 USTR(n) == [k |-> "ustr", v |-> 0, n |-> n]
-(* style: "canon" = minimal; "leadzero" = one superfluous leading zero octet counted in the bit length; "zero" = the value 0 *)
+(* style: "canon" = minimal; "leadzero" / "leadzero2" = one / two superfluous leading zero octets counted in the bit length; "zero" = the value 0 *)
 MPI(bits, style) == [k |-> "mpi", v |-> bits, style |-> style,
-                     n |-> 2 + (IF style = "zero" THEN 0 ELSE ((bits + 7) \div 8) + (IF style = "leadzero" THEN 1 ELSE 0))]
+                     n |-> 2 + (IF style = "zero" THEN 0 ELSE ((bits + 7) \div 8) + (IF style = "leadzero" THEN 1 ELSE IF style = "leadzero2" THEN 2 ELSE 0))]
 SPLEN(form, n) == [k |-> "splen", v |-> n, form |-> form, n |-> form]
 REAL(name, n) == [k |-> "real", v |-> 0, name |-> name, n |-> n]
 
 TokLen(t) == t.n
 SeqLen(s) == LET RECURSIVE S(_) S(i) == IF i = 0 THEN 0 ELSE TokLen(s[i]) + S(i-1) IN S(Len(s))
-TokCanon(t) == CASE t.k = "mpi" -> t.style # "leadzero"
+TokCanon(t) == CASE t.k = "mpi" -> t.style \notin {"leadzero", "leadzero2"}
                  [] t.k = "splen" -> t.form = (IF t.v < 192 THEN 1 ELSE IF t.v < 16320 THEN 2 ELSE 5)
                  [] OTHER -> TRUE
 Canon(s) == \A i \in 1..Len(s) : TokCanon(s[i])
@@ -126,7 +126,7 @@ EccParams(alg, c) == OidToks(c) \o <<REAL("ecc_point_mpi_" \o c.name, c.mpilen)>
 (* ---------- cells ---------- *)
 Cell(pt, tag, desc, toks, acc) == [ptype |-> pt, tag |-> tag, desc |-> desc, toks |-> toks,
                                    canonical |-> Canon(toks), accept |-> acc]
-Styles == {"canon", "leadzero"}
+Styles == {"canon", "leadzero", "leadzero2"}
 AllIds == 0..255
 
 Cells ==
